@@ -962,6 +962,7 @@ func (n *Node) ToRegisterRequest() RegisterRequest {
 		Address:         n.Address,
 		TaggedAddresses: n.TaggedAddresses,
 		NodeMeta:        n.Meta,
+		Locality:        n.Locality,
 		RaftIndex:       n.RaftIndex,
 		EnterpriseMeta:  *n.GetEnterpriseMeta(),
 		PeerName:        n.PeerName,
